@@ -45,8 +45,10 @@ Theorem C11_same_page_shortening : forall quote, (forall t, ~ In c_hash (quote t
        exists p, page_obj r o = Some p /\ page_url quote r p = ctx /\ h' = quote (name_of r o)).
 Proof. exact taglink_shortening. Qed.
 
-(* Liveness, unconditional part: member tables (own and package __init__), moduleIndex.html, the root list of index.html
-   and objects.inv pick their targets from the contents of written pages or from the roots; every href they carry,
+(* Liveness, unconditional part: member tables (own and package __init__), the direct items of the sidebar (ObjContent, at
+   every --sidebar-expand-depth and nesting level, in the section of the object, of its parent package and of its
+   module), moduleIndex.html, the root list of index.html and objects.inv pick their targets from the contents of
+   reachable objects or from the roots; every href they carry,
    resolved against the page it is rendered on, is a written file and, with a fragment, an anchor of that file. *)
 Theorem C11_links_live : forall quote, (forall t, ~ In c_hash (quote t)) ->
   forall r depth ns e h, wf r ->
@@ -57,21 +59,58 @@ Proof.
   exact (links_live_contents quote table_now r Hq depth ns e h Hwf Ht Hf H1 H2).
 Qed.
 
+(* The member self-links (`#name` in the header of every function / attribute block) are live, unconditionally. *)
+Theorem C11_member_selflinks_live : forall quote r depth ns e h,
+  In e (site_entries quote table_now r depth ns) -> e_prod e = P_childlist ->
+  link_of quote table_now r e = Some h -> live_at quote table_now r (e_page e) h.
+Proof. intros quote r. exact (selflink_live quote table_now r). Qed.
+
+(* classIndex.html: every visible class whose name, and the names of all its in-system (transitive) bases, carry no
+   ' N' suffix of a superseded duplicate is listed by findRootClasses / subclassesFrom -- as a root class when it has no
+   base or one of its bases is external or not visible, under one of its visible bases otherwise -- and has its
+   <a name="fullName"> there (class relations as System.defaultPostProcess leaves them; `rank`: no inheritance cycle). *)
+Theorem C11_hierarchy_anchor : forall quote r rank c, wf_classes r rank ->
+  valid r c -> is_class_kind (kind_of r c) = true -> visible r c = true ->
+  (forall a, base_star r a c -> plain_name r a) ->
+  In c (class_index table_now r) /\ In (f_classIndex, fullname r c) (site_anchors quote table_now r).
+Proof. intros quote r rank c Hwc. exact (class_in_index table_now r rank Hwc quote c). Qed.
+
+(* ... hence "View In Hierarchy" (classIndex.html#fullName, on every class page) is live under that guard ... *)
+Theorem C11_hierarchy_links_live_partial : forall quote r rank depth ns e h, wf r -> wf_classes r rank ->
+  In e (site_entries quote table_now r depth ns) -> e_prod e = P_hierarchy ->
+  (forall a, base_star r a (e_obj e) -> plain_name r a) ->
+  link_of quote table_now r e = Some h -> live_at quote table_now r (e_page e) h.
+Proof.
+  intros quote r rank depth ns e h Hwf Hwc. destruct listings_checked as [Ht _].
+  exact (hierarchy_live quote table_now r rank depth ns e h Hwf Ht Hwc).
+Qed.
+
+(* ... and not without it: `class B` / `class C(B)` / `class B` again: C's base is "m.B 0", which is visible (so C is no
+   root class) and skipped by subclassesFrom (' ' in its name): C.html links to classIndex.html#m.C, which is not there
+   (known finding C11-superseded-duplicates). *)
+Theorem C11_hierarchy_links_live_refuted : exists r e h b,
+  wf r /\ In e (site_entries cquote table_pinned r 1 false) /\ e_prod e = P_hierarchy /\
+  link_of cquote table_pinned r e = Some h /\ ~ live_at cquote table_pinned r (e_page e) h /\
+  ~ plain_name r b /\ base_star r b (e_obj e).
+Proof.
+  destruct hierarchy_dead_link as [e [h H]]. exists w_dup_base, e, h, 3. exact (conj w_dup_base_wf H).
+Qed.
+
 (* Guarded liveness: when nothing registered is unreachable through `contents` (no superseded duplicates, no
    collision leftovers), every href built by taglink -- heading, sidebar, member tables, inherited-member tables and
    their base names, known subclasses, class signature, overrides / overridden in, moduleIndex, classIndex,
-   nameIndex, undoccedSummary, index.html roots -- and every url field of all-documents.html and objects.inv,
+   nameIndex, undoccedSummary, index.html roots, the cross references of summaries -- and every url field of
+   all-documents.html and objects.inv,
    resolved against the page it is rendered on, is a written file and, with a fragment, an anchor of that file.
-   Not covered: `classIndex.html#<class>` ("View In Hierarchy") and the member self-links `#name` (excluded below),
-   links inside docutils output. *)
+   (`classIndex.html#<class>` and the member self-links `#name` have their own theorems above.) *)
 Theorem C11_links_live_partial : forall quote, (forall t, ~ In c_hash (quote t)) ->
   forall r depth ns e h, wf r -> all_reachable r ->
   In e (site_entries quote table_now r depth ns) ->
-  N.eqb (e_prod e) P_hierarchy = false -> N.eqb (e_prod e) P_childlist = false ->
+  N.eqb (e_prod e) P_hierarchy = false -> N.eqb (e_prod e) P_childlist = false -> e_prod e <> P_xref ->
   link_of quote table_now r e = Some h -> live_at quote table_now r (e_page e) h.
 Proof.
-  intros quote Hq r depth ns e h Hwf Hall. destruct listings_checked as [Ht [Hf [H1 H2]]].
-  exact (links_live_guarded quote table_now r Hq depth ns e h Hwf Ht Hf H1 H2 Hall).
+  intros quote Hq r depth ns e h Hwf Hall Hin Hh Hc Hx. destruct listings_checked as [Ht [Hf [H1 H2]]].
+  apply (links_live_guarded quote table_now r Hq depth ns e h Hwf Ht Hf H1 H2 Hall Hin Hh Hc). intros E. congruence.
 Qed.
 
 (* ... and the guard is needed: with `def f` twice in m.py the first f lives on in allobjects as "m.f 0";
@@ -93,6 +132,38 @@ Theorem C11_taglink_old_refuted : exists r e h,
 Proof.
   destruct taglink_old_hidden_target as [e [h [H1 [H2 [_ H4]]]]].
   exists w_hidden_base, e, h. exact (conj w_hidden_base_wf (conj H1 (conj H2 H4))).
+Qed.
+
+(* Docstring cross references (L{...}, `...`, field types: _EpydocLinker.link_xref / link_to).  The resolver is an
+   ORACLE: o_xrefs may name ANY registered object.  The href is taglink(target, page_url of the linker context); for
+   format_docstring that context is the page of the docstring's SOURCE.  Every cross-reference entry of the site stands
+   in the docstring rendered for some i on a written page p (p itself or a member listed on p) ... *)
+Theorem C11_xref_origin : forall quote r depth ns e, In e (site_entries quote table_now r depth ns) -> e_prod e = P_xref ->
+  exists p i, xref_from quote table_now r e p i.
+Proof. intros quote r. exact (xref_origin quote table_now r). Qed.
+
+(* ... and it is live on that page when the docstring's source is documented on the same page (own docstring, or
+   inherited from a member of the same class / module) or the target has a page of its own, and the target is
+   reachable through contents.  (No hidden target: C12_no_link_targets_hidden covers these entries too.) *)
+Theorem C11_xref_links_live_partial : forall quote, (forall t, ~ In c_hash (quote t)) ->
+  forall r depth ns e h p i, wf r ->
+  In e (site_entries quote table_now r depth ns) -> e_prod e = P_xref -> xref_from quote table_now r e p i ->
+  (same_page_source r i \/ own_page r (e_obj e) = true) -> reachable r (e_obj e) ->
+  link_of quote table_now r e = Some h -> live_at quote table_now r (e_page e) h.
+Proof.
+  intros quote Hq r depth ns e h p i Hwf. destruct listings_checked as [Ht [Hf [H1 H2]]].
+  exact (xref_links_live quote table_now r Hq depth ns e h p i Hwf Ht Hf H1 H2).
+Qed.
+
+(* The guard is exact: the docstring of B.x inherited by S.x says L{t}; it is an entry of the site on S's page whose
+   source (B.x) lives on another page; its target is reachable and has no page of its own; the link `#t` is dead
+   (known finding C11-inherited-docstring-context). *)
+Theorem C11_xref_links_live_refuted : exists r e h p i,
+  wf r /\ In e (site_entries cquote table_pinned r 1 false) /\ e_prod e = P_xref /\
+  xref_from cquote table_pinned r e p i /\ ~ same_page_source r i /\ own_page r (e_obj e) = false /\
+  reachable r (e_obj e) /\ link_of cquote table_pinned r e = Some h /\ ~ live_at cquote table_pinned r (e_page e) h.
+Proof.
+  destruct inherited_docstring_entry as [e [h [p [i H]]]]. exists w_inherit, e, h, p, i. exact (conj w_inherit_wf H).
 Qed.
 
 (* taglink is right relative to the page_url it is handed (C11_same_page_shortening) -- but format_docstring hands it
@@ -135,7 +206,7 @@ Qed.
 (* non-vacuity: a well-formed registry where everything is reachable, with pages, anchors and live links;
    the concrete quote never emits '#' *)
 Example C11_hypotheses_satisfiable :
-  wf w_example /\ all_reachable w_example /\ (forall t, ~ In c_hash (cquote t)) /\
+  wf w_example /\ wf_classes w_example w_example_rank /\ all_reachable w_example /\ (forall t, ~ In c_hash (cquote t)) /\
   written table_now w_example = [0; 1; 4] /\
   existsb (fun e => match link_of cquote table_now w_example e with Some h => starts_with [c_hash] h | None => false end)
           (site_entries cquote table_now w_example 2 false) = true /\
@@ -143,6 +214,6 @@ Example C11_hypotheses_satisfiable :
                     | Some h => live cquote table_now w_example (e_page e) h | None => true end)
           (site_entries cquote table_now w_example 2 false) = true.
 Proof.
-  split; [apply w_example_wf|]. split; [apply w_example_all_reachable|]. split; [exact cquote_no_hash|].
+  split; [apply w_example_wf|]. split; [apply w_example_classes|]. split; [apply w_example_all_reachable|]. split; [exact cquote_no_hash|].
   split; [vm_compute; reflexivity|]. split; vm_compute; reflexivity.
 Qed.
